@@ -793,10 +793,10 @@ impl TextOwn {
         let mut __acc0: bool = false;
         let mut __i0 = 0;
         while __i0 < __self.chars.len()
-            invariant_except_break !__acc0,
+            invariant_except_break !__acc0, // [C15]
             invariant __i0 <= __self.chars@.len(), __self.chars@ == self.chars@,
-                forall|u: int| 0 <= u < __i0 ==> !sp_upper(#[trigger] self.chars@[u]),
-            ensures __acc0 <==> (exists|u: int| 0 <= u < self.chars@.len() && sp_upper(#[trigger] self.chars@[u])),
+                forall|u: int| 0 <= u < __i0 ==> !sp_upper(#[trigger] self.chars@[u]), // [C15]
+            ensures __acc0 <==> (exists|u: int| 0 <= u < self.chars@.len() && sp_upper(#[trigger] self.chars@[u])), // [C15]
             decreases __self.chars@.len() - __i0,
         {
             let ch = &__self.chars[__i0];
